@@ -10,6 +10,7 @@ import (
 	"time"
 
 	"gonum.org/v1/gonum/floats"
+	"gonum.org/v1/gonum/internal/verifhook"
 	"gonum.org/v1/gonum/mat"
 )
 
@@ -279,6 +280,7 @@ func minimize(prob *Problem, method Method, settings *Settings, converger Conver
 		for {
 			select {
 			case task := <-operations:
+				verifhook.Emit("D", "DRecvOp", int64(task.Op), verifhook.Ptr(task.Location), 0)
 				switch task.Op {
 				case InitIteration:
 					panic("optimize: Method returned InitIteration")
@@ -286,22 +288,28 @@ func minimize(prob *Problem, method Method, settings *Settings, converger Conver
 					panic("optimize: Method returned PostIteration")
 				case NoOperation, MajorIteration, MethodDone:
 					statsChan <- task
+					verifhook.Emit("D", "DSentStats", int64(task.Op), verifhook.Ptr(task.Location), 0)
 				default:
 					if !task.Op.isEvaluation() {
 						panic("optimize: expecting evaluation operation")
 					}
 					workerChan <- task
+					verifhook.Emit("D", "DSentWorker", int64(task.Op), verifhook.Ptr(task.Location), 0)
 				}
 			case <-done:
+				verifhook.Emit("D", "DDone", 0, 0, 0)
 				// No more evaluations will be sent, shut down the workers, and
 				// read the final tasks.
 				close(workerChan)
 				for task := range operations {
+					verifhook.Emit("D", "DDrainOp", int64(task.Op), verifhook.Ptr(task.Location), 0)
 					if task.Op == MajorIteration {
 						statsChan <- task
+						verifhook.Emit("D", "DDrainSent", int64(task.Op), verifhook.Ptr(task.Location), 0)
 					}
 				}
 				close(statsChan)
+				verifhook.Emit("D", "DExit", 0, 0, 0)
 				return
 			}
 		}
@@ -310,13 +318,19 @@ func minimize(prob *Problem, method Method, settings *Settings, converger Conver
 
 	// Evaluate the Problem concurrently.
 	worker := func() {
+		wid := verifhook.Actor("W")
 		x := make([]float64, dim)
 		for task := range workerChan {
+			verifhook.Emit(wid, "WRecv", int64(task.Op), verifhook.Ptr(task.Location), 0)
 			evaluate(prob, task.Location, task.Op, x)
+			verifhook.Emit(wid, "WEval", int64(task.Op), verifhook.Ptr(task.Location), 0)
 			statsChan <- task
+			verifhook.Emit(wid, "WSent", int64(task.Op), verifhook.Ptr(task.Location), 0)
 		}
+		verifhook.Emit(wid, "WClosed", 0, 0, 0)
 		// Signal successful worker completion.
 		statsChan <- Task{Op: signalDone}
+		verifhook.Emit(wid, "WSentDone", 0, 0, 0)
 	}
 	for i := 0; i < nTasks; i++ {
 		go worker()
@@ -333,6 +347,7 @@ func minimize(prob *Problem, method Method, settings *Settings, converger Conver
 	// Update optimization statistics and check convergence.
 	var methodDone bool
 	for task := range statsChan {
+		verifhook.Emit("S", "SRecv", int64(task.Op), verifhook.Ptr(task.Location), 0)
 		switch task.Op {
 		default:
 			if !task.Op.isEvaluation() {
@@ -344,6 +359,7 @@ func minimize(prob *Problem, method Method, settings *Settings, converger Conver
 			workersDone++
 			if workersDone == nTasks {
 				close(results)
+				verifhook.Emit("S", "SCloseResults", 0, 0, 0)
 			}
 			continue
 		case NoOperation:
@@ -362,6 +378,7 @@ func minimize(prob *Problem, method Method, settings *Settings, converger Conver
 				status = Failure
 			}
 		}
+		verifhook.Emit("S", "SProc", int64(status), int64(stats.FuncEvaluations), int64(stats.MajorIterations))
 		// If this is the first termination status, trigger the conclusion of
 		// the optimization.
 		if status != NotTerminated || err != nil {
@@ -374,14 +391,17 @@ func minimize(prob *Problem, method Method, settings *Settings, converger Conver
 					Op: PostIteration,
 				}
 				close(done)
+				verifhook.Emit("S", "SPost", int64(status), 0, 0)
 			}
 		}
 
 		// Send the result back to the Problem if there are still active workers.
 		if workersDone != nTasks && task.Op != MethodDone {
 			results <- task
+			verifhook.Emit("S", "SBack", int64(task.Op), verifhook.Ptr(task.Location), 0)
 		}
 	}
+	verifhook.Emit("S", "SExit", int64(stats.FuncEvaluations), int64(stats.MajorIterations), 0)
 	// This code block is here rather than above to ensure Status() is not called
 	// before Method.Run closes operations.
 	if methodDone {
